@@ -775,8 +775,9 @@ func (l *lexer) scanEscape() rune {
 		ch = l.next()
 	}
 
-	if ch == stopTok {
-		// Reset the string.
+	if ch == stopTok && l.hasError() {
+		// Reset the string. (stopTok without an error is the end of the
+		// input right after a complete escape: keep what was scanned.)
 		l.resetStrBuf()
 	}
 
